@@ -11,12 +11,17 @@ import (
 )
 
 // MakeHookTx builds the hook payload described by Model/L2.v [HTx signer tx_seq sig_ok sends]:
-// a tx of bank MsgSends from the signer, signed over sequence txSeq; sigOK=false signs for a
+// a tx of bank MsgSends / token withdrawals of the signer, signed over sequence txSeq; sigOK=false signs for a
 // different chain id, so the signature does not verify.
 func (e *L2Env) MakeHookTx(signer uint64, txSeq uint64, sigOK bool, sends []HookSend) Hook {
 	u := e.User(signer)
 	var msgs []sdk.Msg
-	for _, s := range sends {
+	for i, s := range sends {
+		if s.Withdraw {
+			sends[i].Sender = u.Str
+			msgs = append(msgs, &opchildtypes.MsgInitiateTokenWithdrawal{Sender: u.Str, To: s.ToL1, Amount: coinOf(s.Denom, s.Amt)})
+			continue
+		}
 		msgs = append(msgs, &banktypes.MsgSend{FromAddress: u.Str, ToAddress: e.AddrOf(s.To).String(), Amount: sdk.Coins{coinOf(s.Denom, s.Amt)}})
 	}
 	var accNum uint64
